@@ -12,7 +12,10 @@ use std::sync::atomic::{AtomicU64, Ordering};
 use std::sync::Arc;
 use std::time::Instant;
 
-pub const VERIF_DIR: &str = "/verif";
+/// The root of the verification tree (where known_findings.json, corpus/, evidence/ and replays/ live).
+pub fn verif_dir() -> String {
+    std::env::var("OALVERIF_HOME").unwrap_or_else(|_| "/verif".to_owned())
+}
 
 #[derive(Clone, Copy, Debug, PartialEq, Eq, Serialize, Deserialize)]
 #[serde(rename_all = "lowercase")]
@@ -244,7 +247,7 @@ pub struct KnownFinding {
 }
 
 pub fn load_known_findings() -> Vec<KnownFinding> {
-    let path = Path::new(VERIF_DIR).join("known_findings.json");
+    let path = Path::new(&verif_dir()).join("known_findings.json");
     match std::fs::read_to_string(&path) {
         Ok(s) => {
             let v: Value = serde_json::from_str(&s).expect("known_findings.json parses");
@@ -698,7 +701,7 @@ pub fn driver_main(prop: &'static dyn Property, tier: Tier) -> i32 {
     // 1. Known findings of this property: replay each stored reproduction.
     for k in known.iter().filter(|k| k.property == id) {
         let Some(repro) = &k.repro else { continue };
-        let path = Path::new(VERIF_DIR).join(repro);
+        let path = Path::new(&verif_dir()).join(repro);
         let text = match std::fs::read_to_string(&path) {
             Ok(t) => t,
             Err(e) => {
@@ -978,7 +981,7 @@ pub fn driver_main(prop: &'static dyn Property, tier: Tier) -> i32 {
         "wall_s": (wall * 1000.0).round() / 1000.0,
         "violations": violations.len(),
     });
-    let ev_dir = Path::new(VERIF_DIR).join("evidence");
+    let ev_dir = Path::new(&verif_dir()).join("evidence");
     std::fs::create_dir_all(&ev_dir).ok();
     std::fs::write(ev_dir.join(format!("{id}.json")), serde_json::to_string_pretty(&evidence).unwrap() + "\n")
         .expect("write evidence");
@@ -995,7 +998,7 @@ pub fn driver_main(prop: &'static dyn Property, tier: Tier) -> i32 {
         wall
     );
     if !violations.is_empty() {
-        let rdir = Path::new(VERIF_DIR).join("replays").join(id);
+        let rdir = Path::new(&verif_dir()).join("replays").join(id);
         std::fs::create_dir_all(&rdir).ok();
         for v in &violations {
             let name = format!("{:016x}.json", fxhash(&v.signature));
